@@ -666,3 +666,65 @@ func init() {
 		panic(engineErr("Trim of %s by %q: cannot decide", s.Key(), cut))
 	})
 }
+
+// trimFix: strings.TrimSuffix / TrimPrefix on structured strings with a concrete affix.
+func (in *Interp) trimFix(s *Str, fix string, suffix bool) (*Str, bool) {
+	if fix == "" {
+		return s, true
+	}
+	ps := append([]*Str{}, parts(s)...)
+	if len(ps) == 0 {
+		return s, true
+	}
+	k := 0
+	if suffix {
+		k = len(ps) - 1
+	}
+	p := ps[k]
+	edge := fix[:1]
+	if suffix {
+		edge = fix[len(fix)-1:]
+	}
+	if c, ok := p.Concrete(); ok {
+		if len(c) >= len(fix) || len(ps) == 1 {
+			if suffix {
+				ps[k] = lit(strings.TrimSuffix(c, fix))
+			} else {
+				ps[k] = lit(strings.TrimPrefix(c, fix))
+			}
+			return concatStr(ps...), true
+		}
+		// the literal edge part is shorter than the affix: it must itself be the end of the affix, and the
+		// neighbouring opaque part would have to supply the rest
+		if (suffix && !strings.HasSuffix(fix, c)) || (!suffix && !strings.HasPrefix(fix, c)) {
+			return s, true
+		}
+		return nil, false
+	}
+	if p.Kind == sAtom && !strings.ContainsAny(edge, "abcdefghijklmnopqrstuvwxyzABCDEFGHIJKLMNOPQRSTUVWXYZ") {
+		in.noteAtomFree(p, edge)
+		return s, true
+	}
+	if opaqueFreeOf(p, edge) {
+		return s, true
+	}
+	return nil, false
+}
+
+func init() {
+	fix := func(suffix bool) summaryFn {
+		return func(in *Interp, fn *ssa.Function, args []value) (value, bool) {
+			s := args[0].(*Str)
+			f, ok := args[1].(*Str).Concrete()
+			if !ok || s.Kind == sBytes {
+				return nil, false
+			}
+			if t, ok := in.trimFix(s, f, suffix); ok {
+				return t, true
+			}
+			panic(engineErr("TrimSuffix/TrimPrefix of %s by %q: cannot decide", s.Key(), f))
+		}
+	}
+	reg("strings.TrimSuffix", fix(true))
+	reg("strings.TrimPrefix", fix(false))
+}
